@@ -13,9 +13,12 @@ mod c06;
 mod c07;
 mod c08;
 mod c09;
+mod c12;
 mod c13;
+mod c15;
 mod tree;
 mod c16;
+mod c20;
 
 use common::*;
 
@@ -71,8 +74,11 @@ fn main() {
             "C07" => c07::replay(case, &mut rep),
             "C08" => c08::replay(case, &mut rep),
             "C09" => c09::replay(case, &mut rep),
+            "C12" => c12::replay(case, &mut rep),
+            "C15" | "C11" => c15::replay(id, case, &mut rep),
             "C13" | "C14" => c13::replay(id, case, &mut rep),
             "C16" => c16::replay(case, &mut rep),
+            "C20" => c20::replay(case, &mut rep),
             _ => {
                 eprintln!("no replay for {id}");
                 std::process::exit(2)
@@ -89,8 +95,11 @@ fn main() {
             "C07" => c07::run(tier, &mut rep),
             "C08" => c08::run(tier, &mut rep),
             "C09" => c09::run(tier, &mut rep),
+            "C12" => c12::run(tier, &mut rep),
+            "C15" | "C11" => c15::run(id, tier, &mut rep),
             "C13" | "C14" => c13::run(id, tier, &mut rep),
             "C16" => c16::run(tier, &mut rep),
+            "C20" => c20::run(tier, &mut rep),
             _ => {
                 eprintln!("unknown property {id}");
                 std::process::exit(2)
